@@ -1,5 +1,6 @@
 import A2lVerif.Lemmas.Sort15
 import A2lVerif.Lemmas.Sort15Order
+import A2lVerif.Lemmas.Sort15Iter
 /-!
 # C15 — sort_new_items(): stable placement over arbitrarily long edit histories
 
@@ -97,6 +98,51 @@ theorem placed_keys_stable_partial (m m' : RModule) (h : sortNewItems m = .ok m'
     ((writeOrder m'.toModule).filter wasPlaced).map Elem.key = ((writeOrder m.toModule).filter placed).map Elem.key := by
   rw [placed_order_stable_partial m m' h hwf hd, List.map_map]
   rfl
+
+/-! ### any number of calls -/
+
+/-- after a call that places several new elements of one list these share a uid; the writer keeps them in list order
+    and the next call re-sorts the list by (uid, line, name). The invariant that survives a call: no two elements with
+    the same (tag, name, content), `Option` sections hold at most one element, and elements of an object list that share
+    a uid and a line stand in name order -/
+example (m : RModule) (h1 : (m.toModule.all.map Elem.key).Nodup)
+    (h2 : ∀ r ∈ m.sections, isSingle r.rule → r.sec.elems.length ≤ 1) (h3 : TieSorted m) : IterInv m := ⟨h1, h2, h3⟩
+
+example (es : List Elem) : TieSortedList es ↔
+    ∀ a b, List.Sublist [a, b] es → a.uid ≠ 0 → a.uid = b.uid → a.line = b.line → a.name ≤ b.name := Iff.rfl
+
+/-- a module whose placed uids are distinct (after a load, after `sort()`) satisfies the invariant -/
+theorem iterInv_of_distinct (m : RModule) (hk : (m.toModule.all.map Elem.key).Nodup) (hwf : SinglesWF m)
+    (hd : PlacedDistinct m) : IterInv m := by
+  refine ⟨hk, hwf, ?_⟩
+  intro r hr _ a b hab hne hu _
+  have ha : a ∈ m.toModule.all := (mem_all_iff m a).2 (.inl ⟨r, hr, hab.subset List.mem_cons_self⟩)
+  have hb : b ∈ m.toModule.all :=
+    (mem_all_iff m b).2 (.inl ⟨r, hr, hab.subset (List.mem_cons_of_mem _ List.mem_cons_self)⟩)
+  rw [hd a ha b hb hne hu]
+  exact String.le_refl _
+
+/-- the invariant survives a call -/
+theorem iterInv_preserved (m m' : RModule) (h : sortNewItems m = .ok m') (hi : IterInv m) : IterInv m' :=
+  iterInv_step h hi
+
+/-- placed before the first of k calls = uid not 0 and divisible by 2^k (new elements get odd uids, and every later call
+    doubles) -/
+example (k : Nat) (e : Elem) : placedK k e = (e.uid != 0 && e.uid % 2 ^ k == 0) := rfl
+example (k : Nat) (e : Elem) : dblK k e = { e with uid := 2 ^ k * e.uid } := rfl
+
+/-- **any number of repeated `sort_new_items()` calls — as long as they return, i.e. no uid overflows — never changes
+    the relative output order of the elements that were placed at the start**: they are written in the same sequence,
+    with nothing but their uids (times 2^k) changed; elements placed by the earlier ones of the k calls included (apply the
+    theorem from that call on: the invariant is preserved) -/
+theorem placed_order_stable_k_calls_partial (k : Nat) (m m' : RModule) (h : iterate k m = .ok m') (hi : IterInv m) :
+    (writeOrder m'.toModule).filter (placedK k) = ((writeOrder m.toModule).filter placed).map (dblK k) :=
+  iterate_placed_stable k m m' h hi
+
+/-- one call, ties allowed -/
+theorem placed_order_stable_ties_partial (m m' : RModule) (h : sortNewItems m = .ok m') (hi : IterInv m) :
+    (writeOrder m'.toModule).filter wasPlaced = ((writeOrder m.toModule).filter placed).map dblE :=
+  writeOrder_placed_stable_ties h hi.singles (A2l.ListOrder.nodup_of_map_nodup _ hi.keys) hi.ties
 
 /-- **a new element is written directly behind the last placed element of its kind**: whatever the writer puts between
     the element with uid 2u (the doubled last placed one) and a new element with uid 2u+1 has one of these two uids —
